@@ -51,6 +51,7 @@ SPECS = [
     {'name': 'P0', 'type': 'DINT', 'length': 4, 'address': None},
     {'name': 'P1', 'type': 'DINT', 'length': 4, 'address': None},
     {'name': 'P2', 'type': 'DINT', 'length': 4, 'address': None},
+    {'name': 'D', 'type': 'DINT', 'length': 12, 'address': None},      # one tag, session i alone writes elements [4i, 4i+4)
 ]
 HOT = (['__setitem__'] * 4 + ['__getitem__'] * 3 + ['request'] * 4 + ['__exit__'] * 3 + ['__enter__'] * 2 + ['closure'] * 2 +
        ['reply_elements', 'process', 'produce', 'route', 'setup', 'resolve', 'lookup', 'post_process_closure'])
@@ -59,9 +60,9 @@ LINE_FILES = ('server/enip/device.py', 'server/enip/logix.py', 'server/enip/ucmm
 
 @st.composite
 def request(draw, sess):
-    kind = draw(st.sampled_from(['ws', 'rs', 'wp', 'rp', 'bundle', 'ws', 'rs']))
+    kind = draw(st.sampled_from(['ws', 'rs', 'wp', 'rp', 'bundle', 'ws', 'rs', 'wd', 'wd', 'rd']))
     if kind == 'bundle':
-        members = draw(st.lists(st.sampled_from(['ws', 'rs', 'wp', 'rp']), min_size=2, max_size=3))
+        members = draw(st.lists(st.sampled_from(['ws', 'rs', 'wp', 'rp', 'wd', 'rd']), min_size=2, max_size=3))
         return {'kind': 'bundle', 'members': members}
     return {'kind': kind}
 
@@ -158,7 +159,17 @@ def run_schedule(case):
                 kinds = rq['members'] if rq['kind'] == 'bundle' else [rq['kind']]
                 msgs, metas = [], []
                 for k in kinds:
-                    if k in ('ws', 'wp'):
+                    if k in ('wd', 'rd'):
+                        path = [{'symbolic': 'D'}, {'element': 4 * i}]
+                        if k == 'wd':
+                            seq += 1
+                            tok = token(i, seq)
+                            msgs.append(rc.req_write_tag(path, 'DINT', [tok] * 4))
+                            metas.append({'op': 'w', 'tag': 'D', 'lo': 4 * i, 'value': [tok] * 4})
+                        else:
+                            msgs.append(rc.req_read_tag(path, 4))
+                            metas.append({'op': 'r', 'tag': 'D', 'lo': 4 * i})
+                    elif k in ('ws', 'wp'):
                         seq += 1
                         tag = 'S' if k == 'ws' else 'P%d' % i
                         L = 6 if k == 'ws' else 4
@@ -185,12 +196,14 @@ def run_schedule(case):
                     history.append(rec)
         return run
 
+    final = None
     try:
         sched.run([body(i) for i in range(n)])
+        final = {sp['name']: list(dev.values(sp['name'])) for sp in SPECS}
     finally:
         restore()
         dev.close()
-    return {'history': history, 'errors': {k: repr(v)[:300] for k, v in sched.errors.items()}, 'sched': sched, 'sessions': sessions, 'dev': dev}
+    return {'final': final, 'history': history, 'errors': {k: repr(v)[:300] for k, v in sched.errors.items()}, 'sched': sched, 'sessions': sessions, 'dev': dev}
 
 
 def decode_record(rec, handle):
@@ -258,8 +271,9 @@ def linearizable(ops, init):
             if done[i] or not minimal(i):
                 continue
             o = ops[i]
+            lo = o.get('lo', 0)
             if o['op'] == 'r':
-                if o['result'] != state[o['tag']]:
+                if o['result'] != state[o['tag']][lo:lo + len(o['result'])]:
                     continue
                 done[i] = True
                 if search(k + 1):
@@ -267,7 +281,7 @@ def linearizable(ops, init):
                 done[i] = False
             else:
                 old = state[o['tag']]
-                state[o['tag']] = list(o['value'])
+                state[o['tag']] = list(old[:lo]) + list(o['value']) + list(old[lo + len(o['value']):])
                 done[i] = True
                 if search(k + 1):
                     return True
@@ -301,6 +315,7 @@ def pred_schedule(case, stats):
     ops = []
     per_sess_seq = [0] * n
     latest_private = {}
+    latest_own_range = {}
     hist_sorted = sorted(hist, key=lambda r: (r['sess'], r['inv']))
     for rec in hist_sorted:
         problems, results = decode_record(rec, out['sessions'][rec['sess']].handle)
@@ -311,22 +326,40 @@ def pred_schedule(case, stats):
         for meta, res in zip(rec['metas'], results):
             per_sess_seq[rec['sess']] += 1
             o = {'sess': rec['sess'], 'inv': rec['inv'], 'resp': rec['resp'], 'seq': per_sess_seq[rec['sess']], 'op': meta['op'], 'tag': meta['tag']}
+            if 'lo' in meta:
+                o['lo'] = meta['lo']
             if meta['op'] == 'w':
                 o['value'] = meta['value']
-                if meta['tag'] != 'S':
+                if meta['tag'] == 'D':
+                    latest_own_range[rec['sess']] = meta['value']
+                elif meta['tag'] != 'S':
                     latest_private[rec['sess']] = meta['value']
             else:
                 o['result'] = res[1]
                 if res[1] is not None and len(set(res[1])) != 1:
                     fail('torn-read', {'session': rec['sess'], 'tag': meta['tag'], 'values': res[1]},
                          'a multi-element read never observes part of a concurrent multi-element write')
-                if meta['tag'] != 'S' and res[1] is not None:
+                if meta['tag'] == 'D' and res[1] is not None:
+                    wantp = latest_own_range.get(rec['sess'], [0, 0, 0, 0])
+                    if res[1] != wantp:
+                        fail('private-data-lost-or-foreign', {'session': rec['sess'], 'tag': 'D', 'elements': [meta['lo'], meta['lo'] + 4], 'read': res[1],
+                                                              'own_latest_write': wantp},
+                             'elements only one session writes keep that session\'s latest write')
+                elif meta['tag'] != 'S' and res[1] is not None:
                     wantp = latest_private.get(rec['sess'], [0, 0, 0, 0])
                     if res[1] != wantp:
                         fail('private-data-lost-or-foreign', {'session': rec['sess'], 'read': res[1], 'own_latest_write': wantp},
                              'elements only one session writes keep that session\'s latest write')
             if o['op'] == 'w' or o.get('result') is not None:
                 ops.append(o)
+    if out.get('final') is not None and not out['errors'] and not sched.deadlock:
+        for i in range(n):
+            want_own = latest_own_range.get(i, [0, 0, 0, 0])
+            got_own = out['final']['D'][4 * i:4 * i + 4]
+            if got_own != want_own:
+                fail('acknowledged-write-to-own-elements-lost', {'session': i, 'tag': 'D', 'elements': [4 * i, 4 * i + 4], 'final': got_own,
+                                                                'own_latest_acknowledged_write': want_own},
+                     'no interleaving loses a write to elements that only one session writes')
     init = {s['name']: [0] * s['length'] for s in SPECS}
     if len(ops) <= 14 and not linearizable(ops, init):
         fail('history-not-linearizable', {'ops': [{k: v for k, v in o.items()} for o in ops]},
@@ -348,6 +381,58 @@ def pred_schedule(case, stats):
 
 # ------------------------------------------------------------------------------------------------
 # engine B: real threads over TCP
+
+
+def same_port_pair(srv, s, case):
+    """Two sessions open at once from two client addresses that use the same source port (127.0.0.1:P and 127.0.0.2:P): each is
+    served on its own.  A missing reply alone is inconclusive; it becomes a violation when the reply arrives as soon as the other
+    session is closed (the sessions were not isolated)."""
+    import socket
+    a = b = None
+    try:
+        a = socket.socket(socket.AF_INET, socket.SOCK_STREAM)
+        a.setsockopt(socket.SOL_SOCKET, socket.SO_REUSEADDR, 1)
+        a.bind(('127.0.0.1', 0))
+        port = a.getsockname()[1]
+        b = socket.socket(socket.AF_INET, socket.SOCK_STREAM)
+        b.setsockopt(socket.SOL_SOCKET, socket.SO_REUSEADDR, 1)
+        try:
+            b.bind(('127.0.0.2', port))
+        except OSError:
+            s.count('engineB:same-port-pair:second-loopback-address-unavailable')
+            return
+        for x in (a, b):
+            x.settimeout(10.0)
+            x.connect(srv.address)
+        a.sendall(rc.register(b'pair-A\0\0'))
+        fa, _, _ = sim.recv_frames(a, 1, 10.0)
+        if not fa:
+            raise common.HarnessError('engine B: no Register reply for the first session of the same-port pair')
+        b.sendall(rc.register(b'pair-B\0\0'))
+        fb, _, eofb = sim.recv_frames(b, 1, 10.0)
+        s.count('engineB:same-port-pair')
+        if fb:
+            ea, eb = rc.dec_encap(fa[0]), rc.dec_encap(fb[0])
+            if ea['session'] == eb['session'] or eb['context'] != b'pair-B\0\0' or eb['status'] != 0:
+                s.fail('stress', 'tcp:same-port-sessions-not-distinct', case, observed={'a': ea['session'], 'b': eb['session'], 'b_status': eb['status']},
+                       expected='two sessions with their own handles')
+            return
+        a.close()
+        a = None
+        fb, _, _ = sim.recv_frames(b, 1, 5.0)
+        if fb:
+            s.fail('stress', 'tcp:session-served-only-after-another-session-closed', case,
+                   observed={'client_addresses': ['127.0.0.1:%d' % port, '127.0.0.2:%d' % port], 'waited_s': 10},
+                   expected='simultaneous sessions are served independently of each other')
+            return
+        raise common.HarnessError('engine B: second session of the same-port pair got no Register reply (inconclusive)')
+    finally:
+        for x in (a, b):
+            if x is not None:
+                try:
+                    x.close()
+                except OSError:
+                    pass
 
 
 def stress_round(job):
@@ -443,6 +528,7 @@ def stress_round(job):
             with plock:
                 problems.append(('HARNESS', '%s: %s' % (type(exc).__name__, str(exc)[:200])))
 
+    same_port_pair(srv, s, case)
     try:
         ts = [threading.Thread(target=client, args=(i,), daemon=True) for i in range(nthreads)]
         for t in ts:
@@ -479,6 +565,7 @@ SWEEP_SCENARIOS = [
     {'sessions': [[{'kind': 'bundle', 'members': ['ws', 'rp']}], [{'kind': 'bundle', 'members': ['rs', 'wp']}]]},
     {'sessions': [[{'kind': 'ws'}, {'kind': 'rs'}], [{'kind': 'ws'}, {'kind': 'rs'}]]},
     {'sessions': [[{'kind': 'rp'}], [{'kind': 'wp'}]], 'register_inside': True},      # both sessions register under the schedule
+    {'sessions': [[{'kind': 'wd'}], [{'kind': 'wd'}]]},                               # disjoint element ranges of one tag
 ]
 
 
@@ -524,7 +611,7 @@ def run(tier, seed):
     stats = Stats()
     m = common.parallel(measure_sweeps, [0], fork=True)
     lengths = m.extra['sweep_lengths']
-    scenarios = range(len(SWEEP_SCENARIOS)) if tier == 'thorough' else [0, 4]
+    scenarios = range(len(SWEEP_SCENARIOS)) if tier == 'thorough' else [0, 4, 5]
     jobs = []
     for si in scenarios:
         # thread 0's own share of the line events is at most the whole run's; preempting later than that is a no-op
